@@ -34,3 +34,234 @@ Proof.
   destruct (z / PageSize =? 0) eqn:E0; [discriminate|]. intros [= <- <-].
   pose proof (Z.quot_rem' g (z / PageSize)). lia.
 Qed.
+
+(* ================= multi-segment reads ================= *)
+Require Import PG.C19.ReadProofs.
+
+(* reading one block of a segment file that exists *)
+Lemma rsb_spec fs path seg local opts :
+  fs path = Some seg -> 0 <= local ->
+  ReadSegmentBlock fs path local opts =
+  if local <? nblocks seg then inr (exact (block local seg)) else inl EBeyond.
+Proof.
+  intros Hf Hl. unfold ReadSegmentBlock, GetSegmentInfo. rewrite Hf. cbn [si_blocks].
+  replace (local <? 0) with false by lia. unfold nblocks, BLCKSZ, PageSize.
+  destruct (local <? blen seg / 8192) eqn:E.
+  - replace (local >=? blen seg / 8192) with false by lia.
+    unfold file_read. replace (local * 8192 <? 0) with false by lia.
+    replace (8192 <=? 0) with false by lia. replace (blen seg <=? local * 8192) with false by lia.
+    rewrite Z.min_l by lia. unfold block, BLCKSZ, exact.
+    replace (local * 8192) with (8192 * local) by lia. replace (8192 * local + 8192) with (8192 * (local + 1)) by lia.
+    rewrite sub_length by lia. replace (8192 - (8192 * (local + 1) - 8192 * local)) with 0 by lia. reflexivity.
+  - replace (local >=? blen seg / 8192) with true by lia. reflexivity.
+Qed.
+
+(* block g of the concatenation of the segment files = block (g mod bps) of segment g / bps,
+   provided every earlier segment holds exactly bps blocks *)
+Lemma block_concat bps : 0 < bps -> forall (q : nat) (segs : list bytes) g,
+  0 <= g -> g / bps = Z.of_nat q -> (q < length segs)%nat ->
+  (forall i, (i < q)%nat -> blen (nth i segs []) = 8192 * bps) ->
+  8192 * (g mod bps + 1) <= blen (nth q segs []) ->
+  block g (concat segs) = block (g mod bps) (nth q segs []).
+Proof.
+  intros Hb. induction q as [|q IH]; intros segs g Hg Hq Hlen Hfull Hfit.
+  - destruct segs as [|s rest]; [cbn in Hlen; lia|]. cbn [nth concat] in *.
+    assert (g mod bps = g) by (apply Z.mod_small; lia). rewrite H in *.
+    unfold block, BLCKSZ. apply sub_app_l; lia.
+  - destruct segs as [|s rest]; [cbn in Hlen; lia|]. cbn [nth concat length] in *.
+    pose proof (Hfull O ltac:(lia)) as Hs. cbn [nth] in Hs.
+    assert (Hge : bps <= g).
+    { pose proof (Z.div_mod g bps ltac:(lia)). pose proof (Z.mod_pos_bound g bps Hb). nia. }
+    unfold block, BLCKSZ. rewrite sub_app_r by lia. rewrite Hs.
+    replace (8192 * g - 8192 * bps) with (8192 * (g - bps)) by lia.
+    replace (8192 * (g + 1) - 8192 * bps) with (8192 * (g - bps + 1)) by lia.
+    assert (Hd : (g - bps) / bps = Z.of_nat q).
+    { replace (g - bps) with (g + (-1) * bps) by lia. rewrite Z.div_add by lia. lia. }
+    assert (Hm : (g - bps) mod bps = g mod bps).
+    { replace (g - bps) with (g + (-1) * bps) by lia. apply Z.mod_add. lia. }
+    specialize (IH rest (g - bps) ltac:(lia) Hd ltac:(lia)).
+    rewrite Hm in IH. unfold block, BLCKSZ in IH. apply IH.
+    + intros i Hi. apply (Hfull (S i)). lia.
+    + exact Hfit.
+Qed.
+
+Section Multi.
+Variables (fs : fsys) (segs : list bytes) (segments : list SegmentInfo) (bps : Z) (opts : option (Z * Z)).
+Let k := Z.of_nat (length segs).
+Let lastseg := nth (Z.to_nat (k - 1)) segs [].
+Let N := (k - 1) * bps + nblocks lastseg.
+Hypothesis Hbps : 0 < bps.
+Hypothesis Hk : 1 <= k.
+Hypothesis Hsegments_len : length segments = length segs.
+Hypothesis Hsegments : forall i sg, nth_error segments i = Some sg -> fs (si_path sg) = Some (nth i segs []).
+Hypothesis Hfull : forall i, (Z.of_nat i < k - 1) -> blen (nth i segs []) = 8192 * bps.
+Hypothesis Hlast : nblocks lastseg <= bps.
+
+Lemma nblocks_nonneg s : 0 <= nblocks s.
+Proof. unfold nblocks, BLCKSZ. pose proof (blen_nonneg s). lia. Qed.
+
+Lemma multi_loop_spec : forall cnt g, 0 <= g ->
+  multi_loop cnt fs segments bps opts g =
+  Ok (blocks_of (concat segs) (zrange g (Z.to_nat (Z.min (Z.of_nat cnt) (Z.max 0 (N - g)))))).
+Proof.
+  induction cnt as [|cnt IH]; intros g Hg.
+  - cbn [multi_loop]. replace (Z.to_nat _) with O by lia. reflexivity.
+  - cbn [multi_loop]. replace (bps =? 0) with false by lia.
+    rewrite Z.quot_div_nonneg, Z.rem_mod_nonneg by lia.
+    pose proof (Z.div_mod g bps ltac:(lia)) as Hdm. pose proof (Z.mod_pos_bound g bps Hbps) as Hmb.
+    assert (Hq0 : 0 <= g / bps) by (apply Z.div_pos; lia).
+    pose proof (nblocks_nonneg lastseg) as Hnl.
+    rewrite Hsegments_len. fold k.
+    destruct (g / bps >=? k) eqn:Eidx.
+    + (* beyond the available segments *)
+      assert (N <= g) by (unfold N; nia).
+      replace (Z.to_nat _) with O by lia. reflexivity.
+    + replace (g / bps <? 0) with false by lia.
+      destruct (nth_error segments (Z.to_nat (g / bps))) as [sg|] eqn:Enth.
+      2:{ apply nth_error_None in Enth. lia. }
+      pose proof (Hsegments _ _ Enth) as Hfs.
+      rewrite (rsb_spec _ _ _ _ _ Hfs) by lia.
+      destruct (Z_lt_ge_dec g N) as [HgN|HgN].
+      * (* block g exists *)
+        assert (Hloc : g mod bps < nblocks (nth (Z.to_nat (g / bps)) segs [])).
+        { destruct (Z_lt_ge_dec (g / bps) (k - 1)) as [Hlt|Hge].
+          - unfold nblocks, BLCKSZ. rewrite Hfull by lia. replace (8192 * bps / 8192) with bps by lia. lia.
+          - assert (g / bps = k - 1) by lia. replace (Z.to_nat (g / bps)) with (Z.to_nat (k - 1)) by lia.
+            fold lastseg. unfold N in HgN. nia. }
+        replace (g mod bps <? nblocks (nth (Z.to_nat (g / bps)) segs [])) with true by lia.
+        rewrite IH by lia. cbn [bind exact vis].
+        replace (Z.to_nat (Z.min (Z.of_nat (S cnt)) (Z.max 0 (N - g))))
+          with (S (Z.to_nat (Z.min (Z.of_nat cnt) (Z.max 0 (N - (g + 1)))))) by lia.
+        rewrite zrange_S. unfold blocks_of. cbn [map concat]. do 2 f_equal.
+        symmetry. apply (block_concat bps Hbps (Z.to_nat (g / bps))).
+        -- lia.
+        -- lia.
+        -- unfold k in *. lia.
+        -- intros i Hi. apply Hfull. lia.
+        -- unfold nblocks, BLCKSZ in Hloc. lia.
+      * (* past the end of the last segment *)
+        assert (g / bps = k - 1) by (unfold N in HgN; nia).
+        replace (Z.to_nat (g / bps)) with (Z.to_nat (k - 1)) by lia. fold lastseg.
+        assert (nblocks lastseg <= g mod bps) by (unfold N in HgN; nia).
+        replace (g mod bps <? nblocks lastseg) with false by lia.
+        replace (Z.to_nat _) with O by lia. reflexivity.
+Qed.
+End Multi.
+
+(* ---------- ListSegments finds base, base.1, ..., base.(k-1) ---------- *)
+Section Listing.
+Variables (fs : fsys) (base : bytes) (segs : list bytes).
+Let k := Z.of_nat (length segs).
+Hypothesis Hk : 1 <= k <= 1000.
+Hypothesis Hbase : fs base = Some (nth O segs []).
+Hypothesis Hseg : forall i, 1 <= i < k -> fs (seg_path base i) = Some (nth (Z.to_nat i) segs []).
+Hypothesis Hend : k < 1000 -> fs (seg_path base k) = None.
+
+Lemma list_more_ok : forall cnt i, 1 <= i <= k -> i + Z.of_nat cnt = 1000 ->
+  length (list_more cnt fs base i) = Z.to_nat (k - i) /\
+  forall j sg, nth_error (list_more cnt fs base i) j = Some sg ->
+               fs (si_path sg) = Some (nth (Z.to_nat i + j) segs []).
+Proof.
+  induction cnt as [|cnt IH]; intros i Hi Hc.
+  - cbn [list_more]. split; [cbn [length]; lia|]. intros j sg H. destruct j; discriminate.
+  - cbn [list_more]. destruct (Z.eq_dec i k) as [->|Hne].
+    + rewrite Hend by lia. split; [cbn [length]; lia|]. intros j sg H. destruct j; discriminate.
+    + rewrite Hseg by lia. destruct (IH (i + 1) ltac:(lia) ltac:(lia)) as [L Nn].
+      split; [cbn [length]; rewrite L; lia|].
+      intros j sg H. destruct j as [|j].
+      * cbn [nth_error] in H. injection H as <-. cbn [si_path]. rewrite Hseg by lia. f_equal. f_equal. lia.
+      * cbn [nth_error] in H. rewrite (Nn _ _ H). f_equal. f_equal. lia.
+Qed.
+
+Lemma list_segments_ok :
+  length (ListSegments fs base) = length segs /\
+  forall j sg, nth_error (ListSegments fs base) j = Some sg -> fs (si_path sg) = Some (nth j segs []).
+Proof.
+  unfold ListSegments. rewrite Hbase. cbn [app].
+  destruct (list_more_ok (Z.to_nat 999) 1 ltac:(lia) ltac:(lia)) as [L Nn].
+  change 999%nat with (Z.to_nat 999). split.
+  - cbn [length]. rewrite L. unfold k in *. lia.
+  - intros j sg H. destruct j as [|j].
+    + cbn [nth_error] in H. injection H as <-. cbn [si_path]. exact Hbase.
+    + cbn [nth_error] in H. rewrite (Nn _ _ H). reflexivity.
+Qed.
+
+(* the multi-segment read: blocks a .. min(b, N-1) of the logical file, nothing else *)
+Variable opts : option (Z * Z).
+Let segSize := match opts with Some (_, sz) => if sz >=? PageSize then sz else DefaultSegmentSize | None => DefaultSegmentSize end.
+Let bps := segSize / PageSize.
+Let lastseg := nth (Z.to_nat (k - 1)) segs [].
+Let N := (k - 1) * bps + nblocks lastseg.
+Hypothesis Hfull : forall i, (Z.of_nat i < k - 1) -> blen (nth i segs []) = 8192 * bps.
+Hypothesis Hlast : nblocks lastseg <= bps.
+
+Lemma bps_pos : 0 < bps.
+Proof.
+  unfold bps, segSize, PageSize, DefaultSegmentSize.
+  destruct opts as [[sn sz]|]; [destruct (sz >=? 8192) eqn:E|]; try (vm_compute; reflexivity).
+  apply Z.div_str_pos. lia.
+Qed.
+
+Theorem read_multi_spec a b :
+  0 <= a ->
+  ReadMultiSegmentFile fs base a b opts = Ok (inr (blocks_of (logical segs) (between a (Z.min b (N - 1))))).
+Proof.
+  intros Ha. unfold ReadMultiSegmentFile. replace (a <? 0) with false by lia.
+  destruct list_segments_ok as [L Nn].
+  destruct (ListSegments fs base) as [|s0 sr] eqn:E.
+  - cbn [length] in L. unfold k in Hk. lia.
+  - rewrite <- E in *. fold segSize. fold bps.
+    rewrite (multi_loop_spec fs segs (ListSegments fs base) bps opts bps_pos ltac:(unfold k in Hk; lia) L Nn Hfull Hlast) by lia.
+    cbn [bind]. unfold logical, between. fold k. fold lastseg. fold N.
+    do 4 f_equal. lia.
+Qed.
+
+Lemma read_multi_no_panic_wf a b : ReadMultiSegmentFile fs base a b opts <> Panic.
+Proof.
+  destruct (Z_lt_ge_dec a 0).
+  - unfold ReadMultiSegmentFile. replace (a <? 0) with true by lia. discriminate.
+  - rewrite read_multi_spec by lia. discriminate.
+Qed.
+End Listing.
+
+(* negative start: rejected (before the fix a negative index could panic) *)
+Lemma read_multi_negative fs base a b opts : a < 0 -> ReadMultiSegmentFile fs base a b opts = Ok (inl ENegative).
+Proof. intros. unfold ReadMultiSegmentFile. replace (a <? 0) with true by lia. reflexivity. Qed.
+
+(* no panic for ANY file system, arguments and options *)
+Lemma multi_loop_no_panic fs segments bps opts : 0 < bps -> forall cnt g, 0 <= g -> multi_loop cnt fs segments bps opts g <> Panic.
+Proof.
+  intros Hb. induction cnt as [|cnt IH]; intros g Hg; [discriminate|].
+  cbn [multi_loop]. replace (bps =? 0) with false by lia.
+  rewrite Z.quot_div_nonneg by lia.
+  assert (0 <= g / bps) by (apply Z.div_pos; lia).
+  destruct (g / bps >=? Z.of_nat (length segments)) eqn:E; [discriminate|].
+  replace (g / bps <? 0) with false by lia.
+  destruct (nth_error segments (Z.to_nat (g / bps))) as [sg|] eqn:En.
+  2:{ apply nth_error_None in En. lia. }
+  destruct (ReadSegmentBlock _ _ _ _); [discriminate|].
+  specialize (IH (g + 1) ltac:(lia)). destruct (multi_loop cnt fs segments bps opts (g + 1)); [discriminate|congruence].
+Qed.
+
+Theorem read_multi_no_panic fs base a b opts : ReadMultiSegmentFile fs base a b opts <> Panic.
+Proof.
+  unfold ReadMultiSegmentFile. destruct (a <? 0) eqn:Ea; [discriminate|].
+  destruct (ListSegments fs base) as [|s0 sr]; [discriminate|].
+  set (segments := s0 :: sr).
+  set (bps := _ / PageSize).
+  assert (Hb : 0 < bps).
+  { unfold bps, PageSize, DefaultSegmentSize.
+    destruct opts as [[sn sz]|]; [destruct (sz >=? 8192) eqn:E|]; try (vm_compute; reflexivity).
+    apply Z.div_str_pos. lia. }
+  pose proof (multi_loop_no_panic fs segments bps opts Hb (Z.to_nat (b - a + 1)) a ltac:(lia)) as Hn.
+  destruct (multi_loop _ _ _ _ _ _); [discriminate|congruence].
+Qed.
+
+(* ---------- segment number from the file name (finite check, see Props/C19.v) ---------- *)
+Definition segnum_roundtrip (prefix : bytes) (n : nat) : bool :=
+  GetSegmentNumberFromPath (prefix ++ [x2e] ++ dec_str (Z.of_nat n)) =? Z.of_nat n.
+Lemma segnum_table :
+  forallb (segnum_roundtrip [x31; x36; x33; x38; x34]) (seq 0 (Z.to_nat 1000)) = true /\
+  forallb (segnum_roundtrip [x2f; x70; x67; x2e; x64; x2f; x62; x61; x73; x65; x2f; x35; x2f; x31; x36; x33; x38; x34]) (seq 0 (Z.to_nat 1000)) = true /\
+  GetSegmentNumberFromPath [x2f; x70; x67; x2e; x64; x2f; x62; x61; x73; x65; x2f; x35; x2f; x31; x36; x33; x38; x34] = 0.
+Proof. vm_compute. repeat split; reflexivity. Qed.
